@@ -305,10 +305,10 @@ def split_harness(text):
     return {"complete": complete, "partial": cur}
 
 
-def inventory_obligation():
+def inventory_obligation(with_dtrait=False):
     """The model's method table (Model/Run.v: hinfo) against the MockFnInfo the real macro generated for
     every method of the harness inventory (hook verif::mock_fn_facts): regenerated and re-checked by Coq."""
-    binary = build_harness("core")
+    binary = build_harness("core", ["std-build", "dtrait"] if with_dtrait else None)
     rows = run_harness(binary, ["info"], jobs=1)[0]
     items = []
     for r in rows:
@@ -325,7 +325,7 @@ def inventory_obligation():
     try:
         open(os.path.join(d, "InventoryCheck.v"), "w").write(src)
         rc, out, err = sh(["coqc", "-noglob", "-Q", COQ, "Unimock", "InventoryCheck.v"], cwd=d, timeout=300)
-        if rc != 0 or len(rows) < 19:
+        if rc != 0 or len(rows) < (19 if with_dtrait else 9):
             raise CheckFailure("InventoryCheck.inventory_ok: the model's method table (hinfo) no longer matches the MockFnInfo generated by the macro",
                                "\n".join(rows) + "\n" + (out + err)[-1500:])
     finally:
